@@ -42,6 +42,17 @@ WORKER_ZONES = ["UTC", "Asia/Kolkata", "America/St_Johns", "Pacific/Auckland", "
                 "Asia/Tokyo", "Africa/Casablanca", "Pacific/Pago_Pago", "Europe/London"]
 
 
+# the directory a worker lives in (its HOME, XDG directories, database files and scratch space are all below it): names
+# a user's home or data directory may well have - blanks, brackets, non-ASCII letters, characters that mean something to
+# a shell, to glob, to printf or to a URL
+WORKER_DIRS = ["w0", "w1 [work]", "wé2 日本", "w3 (copy)", "w4", "w5%20x", "w6#1", "w7 {a,b}", "w8", "w9 & co", "w10=x;y", "w11 'q'",
+               "w12", "w13 $HOME", "w14+plus", "w15 [a-c]"]
+
+
+def worker_dir(widx: int, seed: int = 0) -> str:
+    return WORKER_DIRS[(widx + 3 * seed) % len(WORKER_DIRS)]
+
+
 def worker_env(root: str, tz: str = None) -> dict:
     env = dict(os.environ)
     if tz and os.path.exists(os.path.join("/usr/share/zoneinfo", tz)):
@@ -77,7 +88,7 @@ def load_module(pid: str):
 
 
 def _spawn(pid, tier, seed, widx, nworkers, plan, root):
-    wroot = os.path.join(root, f"w{widx}")
+    wroot = os.path.join(root, worker_dir(widx, seed))
     os.makedirs(wroot, exist_ok=True)
     out = os.path.join(root, f"w{widx}.json")
     args = dict(pid=pid, tier=tier, seed=seed, widx=widx, nworkers=nworkers,
@@ -243,7 +254,7 @@ def finish(pid, tier, seed, mod, plan, results, dead, wall):
             path = os.path.join(REPLAY_DIR, f"{pid}-{tier}-s{seed}-{n}.json")
             with open(path, "w") as f:
                 json.dump(dict(property=pid, tier=tier, seed=seed, kind=v["kind"],
-                               detail=v["detail"], case=v["case"], tz=v.get("tz")), f, indent=1, default=str)
+                               detail=v["detail"], case=v["case"], tz=v.get("tz"), wdir=v.get("wdir")), f, indent=1, default=str)
             print(f"VIOLATION property={pid} replay={path}")
             print(f"  kind={v['kind']} detail={v['detail'][:400]}")
             if n >= 8:
@@ -268,7 +279,7 @@ def replay(pid: str, path: str) -> int:
         out = os.path.join(root, "replay.json")
         args = dict(pid=pid, replay=doc["case"], out=out, tier=doc.get("tier", "quick"),
                     seed=doc.get("seed", 0), widx=0, nworkers=1, cases=1, time_s=600, extra={})
-        wroot = os.path.join(root, "w0")
+        wroot = os.path.join(root, doc.get("wdir") or "w0")
         os.makedirs(wroot)
         p = subprocess.run([PY, "-m", "awverif.worker", json.dumps(args)], env=worker_env(wroot, doc.get("tz")),
                            cwd=wroot, timeout=900)
